@@ -20,8 +20,8 @@ def hx(x):
     return float(x).hex()
 
 
-def tube(rng, dim, h, mult=1, fl=1.0, nz=3):
-    return {"r": hx(12.7), "t": hx(1.2), "h": hx(h), "nr": 4, "nt": 6, "nz": nz, "T0": hx(300.0), "dim": dim, "mult": mult,
+def tube(rng, dim, h, mult=1, fl=1.0, nz=3, nr=4, nt=6):
+    return {"r": hx(12.7), "t": hx(1.2), "h": hx(h), "nr": nr, "nt": nt, "nz": nz, "T0": hx(300.0), "dim": dim, "mult": mult,
             "flux": [hx(0.0), hx(0.5 * fl), hx(0.8 * fl), hx(0.0)],
             "Tfluid": [hx(823.0), hx(873.0 + rng.uniform(0, 20)), hx(893.0), hx(833.0)],
             "pressure": [hx(0), hx(1.0), hx(1.0), hx(0)]}
@@ -31,7 +31,8 @@ def gen_receiver(rng, kind):
     times = [hx(0), hx(6), hx(12), hx(24)]
     if kind == "separate":      # every tube its own structural sub-problem (sub-problems in parallel)
         panels = [{"stiff": "disconnect", "tubes": [tube(rng, 3, 3000.0, 1, 1.0), tube(rng, 3, 2400.0, 1, 0.9)]},
-                  {"stiff": "disconnect", "tubes": [tube(rng, 1, 3000.0, 2, 0.7), tube(rng, 2, 3000.0, 1, 1.1)]}]
+                  # (the last tube's result fields exceed 64 KiB: 4 times x 8 x 72 elements x 4 points x 8 bytes)
+                  {"stiff": "disconnect", "tubes": [tube(rng, 1, 3000.0, 2, 0.7), tube(rng, 2, 3000.0, 1, 1.1, nr=9, nt=72)]}]
         rstiff = "disconnect"
     elif kind == "coupled":     # one sub-network holding all tubes (edges in parallel)
         panels = [{"stiff": hx(rng.choice([50.0, 200.0])), "tubes": [tube(rng, 1, 3000.0, 1, 1.0), tube(rng, 2, 3000.0, 3, 0.8)]},
